@@ -19,6 +19,16 @@ fn partials(sc: &J) -> liquid::partials::InMemorySource {
 
 fn build_parser(sc: &J) -> Result<liquid::Parser, liquid::Error> {
     let policy = sc.get("policy").and_then(|p| p.as_str()).unwrap_or("eager");
+    // `"parser": "stdlib"` keeps the standard filters only (jekyll::Sort registers itself under the name `sort` too)
+    let stdlib_only = sc.get("parser").and_then(|p| p.as_str()) == Some("stdlib");
+    if stdlib_only {
+        let b = liquid::ParserBuilder::with_stdlib();
+        return match policy {
+            "lazy" => b.partials(liquid::partials::LazyCompiler::new(partials(sc))).build(),
+            "ondemand" => b.partials(liquid::partials::OnDemandCompiler::new(partials(sc))).build(),
+            _ => b.partials(liquid::partials::EagerCompiler::new(partials(sc))).build(),
+        };
+    }
     let b = liquid::ParserBuilder::with_stdlib()
         .filter(liquid_lib::jekyll::Slugify)
         .filter(liquid_lib::jekyll::Push)
